@@ -6,4 +6,4 @@ NOT_APPLICABLE = {}
 HOOK_COMMITS = ['ccf9035', 'f508266']
 
 # checks that are finished and registered in MANIFEST.json (others stay under not_applicable until ready)
-READY = ['C01', 'C04', 'C07', 'C13', 'C14', 'C15', 'C16']
+READY = ['C01', 'C04', 'C07', 'C08', 'C09', 'C10', 'C13', 'C14', 'C15', 'C16', 'C20']
